@@ -2,7 +2,7 @@
    finite-map specification it is proved to refine (TableProofs.v, Properties_C02.v).
    MODEL ONLY (no proofs here). *)
 From Coq Require Import List Arith Bool NArith ZArith.
-From CelloV Require Import RobinHood.
+From CelloV Require Import Generated RobinHood.
 Import ListNotations.
 
 Inductive cexn := KeyError | FormatError | ValueError | IndexError | TypeError
@@ -55,13 +55,18 @@ Section Table.
     | None => None
     end.
 
+  (* Table_Resize_More / Table_Resize_Less.  WHEN to rehash and to WHAT size is tuning: the policy
+     is read from the source (Generated.table_grow_trigger/target, table_shrink_trigger/target,
+     functions of nitems; the pinned code has the identity everywhere):
+       More:  if (Ideal(grow_trigger n) > nslots)   Rehash(Ideal(grow_target n))
+       Less:  if (Ideal(shrink_trigger n) < nslots) Rehash(Ideal(shrink_target n))              *)
   Definition resize_more (t : table) : option table :=
-    let n := ideal (nitems t) in
-    if nslots t <? n then t_rehash t n else Some t.
+    if nslots t <? ideal (table_grow_trigger (nitems t))
+    then t_rehash t (ideal (table_grow_target (nitems t))) else Some t.
 
   Definition resize_less (t : table) : option table :=
-    let n := ideal (nitems t) in
-    if n <? nslots t then t_rehash t n else Some t.
+    if ideal (table_shrink_trigger (nitems t)) <? nslots t
+    then t_rehash t (ideal (table_shrink_target (nitems t))) else Some t.
 
   (* Table_New with initial pairs: capacity from the pair count, no Resize_More *)
   Fixpoint set_all (t : table) (kvs : list entry) : option table :=
